@@ -182,10 +182,10 @@ CLAIMED["C12"] = dict(
          "client's bytes for any read sizes); for any extraction function stable under extension, if a prefix of the stream within the "
          "limit yields the client random then every segmentation yields exactly that value; the modelled record/ClientHello layout "
          "reports only bytes 11..43 of a handshake record starting with a ClientHello and is stable. Tied by translator facts "
-         "(TlsFacts.v), by tls-parser's verdicts on synthetic and mutated records vs the layout model, by peek-and-replay over real "
+         "(TlsFacts.v), by the real extraction on synthetic, mutated, truncated and multi-record ClientHellos vs the model and an independent Python reading, by peek-and-replay over real "
          "loopback TCP in chosen segments (incl. the 16 KiB limit), and by real rustls handshakes whose first flight is cut into pieces "
          "(random on the wire = random reported, SNI/ALPN intact, data echoed)",
-    note="partial: tls-parser and rustls are library code (differentially checked, not modelled beyond the ClientHello-first layout); "
+    note="partial: rustls is library code (exercised by real handshakes); "
          "the QUIC client random comes from the QUIC library after the handshake (the rules scenarios of C04 exercise it through the real QUIC listener); trusted: Coq kernel, "
          "Model/ClientRandom.v, translator facts, extraction + driver, harness door verif::tls",
     design="DESIGN.md 5 C12")
